@@ -271,12 +271,17 @@ func (c *Client) handleOne() {
 	} else {
 		// Process the tag.
 		//
-		// We know that is is contained in the map because our lookup function
-		// above must have succeeded (found the tag) to return nil err.
+		// Our lookup function above found the tag, but the entry may be
+		// gone by now: a request whose send reported an error is withdrawn
+		// by its caller (see sendRecv), also when the peer received it after
+		// all and this is its reply. Nobody is waiting for that reply.
 		c.pendingMu.Lock()
 		resp := c.pending[t]
 		delete(c.pending, t)
 		c.pendingMu.Unlock()
+		if resp == nil {
+			return
+		}
 		resp.r = r
 		resp.done <- err
 	}
